@@ -214,6 +214,83 @@ theorem keyswitch_internal_shape (big128 : Bool) (resDft : Buf) (a : Ct) (key : 
 example : ∃ r, keyswitchInternal false (zeroBuf 2 2 2) (mkCt 4 2 [[[1, 0]], [[1, 1]]]) { base2k := 4, dsize := 1, p := 0, mat := exKey } = .ok r :=
   ⟨_, rfl⟩
 
+/-- **`keyswitch_internal_phase_dsize1`** — `glwe_keyswitch_internal` end to end for `dsize = 1`, from
+the ciphertext to the phase: the call succeeds, its big accumulator is `prod` with the input body
+added to column 0, and limb `l` of `prod` has phase `Σ_j mask_{j mod r}[j / r] ⋆ phase(key row j, limb l)`
+under the target secret (`r = rank_in`; `j` runs over the `min(dnum, a_size)·r` limb/column pairs):
+the key-switch preserves the phase up to the explicit gadget error of `gadget_identity`. -/
+theorem keyswitch_internal_phase_dsize1 (big128 : Bool) (sk : List Poly) (resDft : Buf) (a : Ct) (key : Key)
+    (h1 : key.dsize = 1) (hb : a.base2k = key.base2k)
+    (hA : ∀ c, c < a.cols.length → (a.cols.getD c []).length = a.size)
+    (hd : resDft.WF) (hn : resDft.n = a.n) (hcols : resDft.cols = key.mat.colsOut) (hc : 0 < key.mat.colsOut)
+    (hM : ∀ j q, (key.mat.entry j q).length = a.n) :
+    ∃ prod : Buf,
+      keyswitchInternal big128 resDft a key =
+        .ok (prod.setAct 0 (bigAddSmallAssign big128 (prod.act 0) (a.cols.getD 0 []))) ∧
+      ∀ l, l < resDft.size → l < key.mat.size →
+        phaseRow sk (bufRow prod l) =
+          sumPolys a.n ((List.range (min (key.mat.colsIn * key.mat.rows) (a.size * a.rank))).map (fun j =>
+            Hal.negMul (limbOr0 a.n (a.cols.getD (j % a.rank + 1) []) (j / a.rank)) (phaseRow sk (rowLimb key.mat j l)))) := by
+  unfold keyswitchInternal
+  rw [if_neg (by simpa using hb)]
+  refine ⟨_, rfl, ?_⟩
+  intro l hl hls
+  -- the input buffer a_dft
+  have hfold := foldl_setActG (fun n size c => dftApplyCol n 1 0 size ((bufOfCols a.n a.size a.cols).act (c + 1)))
+    (List.range (a.rank + 1 - 1)) (zeroBuf a.n (a.rank + 1 - 1) a.size) (zeroBuf_WF _ _ _) List.nodup_range
+    (fun c hc => by simpa [zeroBuf] using List.mem_range.mp hc) (by intro c; simp [zeroBuf])
+  simp only at hfold
+  have hstep : (fun (acc : Buf) ci => opDftApply 1 0 acc ci (bufOfCols a.n a.size a.cols) (ci + 1)) =
+      (fun (acc : Buf) c => acc.setAct c (dftApplyCol acc.n 1 0 acc.size ((bufOfCols a.n a.size a.cols).act (c + 1)))) := rfl
+  rw [hstep]
+  generalize hX : (List.range (a.rank + 1 - 1)).foldl
+    (fun (acc : Buf) c => acc.setAct c (dftApplyCol acc.n 1 0 acc.size ((bufOfCols a.n a.size a.cols).act (c + 1))))
+    (zeroBuf a.n (a.rank + 1 - 1) a.size) = aDft at hfold ⊢
+  obtain ⟨_, hXc, hXs, hXn, hXa⟩ := hfold
+  have hXc' : aDft.cols = a.rank := by rw [hXc]; simp [zeroBuf]
+  have hXs' : aDft.size = a.size := by rw [hXs]; simp [zeroBuf]
+  rw [keyswitch_phase_dsize1 sk resDft aDft key l h1 hd hcols hc hl hls (by rw [hn]; exact hM)]
+  rw [hn, flat_length, hXs', hXc']
+  congr 1
+  apply List.map_congr_left
+  intro j hj
+  have hj' : j < a.size * a.rank := by
+    have := List.mem_range.mp hj; omega
+  have hrpos : 0 < a.rank := by
+    rcases Nat.eq_zero_or_pos a.rank with h0 | h0
+    · rw [h0] at hj'; omega
+    · exact h0
+  congr 1
+  rw [flat_getD aDft j (by rw [hXs', hXc']; exact hj'), hXn, hXc']
+  have hmod : j % a.rank < a.rank := Nat.mod_lt _ hrpos
+  rw [hXa (j % a.rank)]
+  have hmem : j % a.rank ∈ List.range (a.rank + 1 - 1) := by simp; omega
+  rw [if_pos hmem]
+  -- the selected column of the ciphertext, copied limb for limb
+  have hlen : a.rank + 1 ≤ a.cols.length := by
+    unfold Core.GLWE.rank at hrpos ⊢; omega
+  have hcol : (bufOfCols a.n a.size a.cols).act (j % a.rank + 1) = a.cols.getD (j % a.rank + 1) [] := by
+    unfold Buf.act bufOfCols
+    simp only
+    apply List.take_of_length_le
+    rw [hA _ (by omega)]
+  simp only [zeroBuf]
+  rw [hcol]
+  have := dftApplyCol_id a.n (a.cols.getD (j % a.rank + 1) [])
+  rw [hA _ (by omega)] at this
+  rw [this]
+
+/-- non-vacuity: a rank-1 ciphertext with one limb at `n = 2` and the 1-row key `exKey` meet every hypothesis -/
+example : ∃ prod : Buf,
+    keyswitchInternal false (zeroBuf 2 2 2) (mkCt 4 2 [[[1, 0]], [[1, 1]]]) { base2k := 4, dsize := 1, p := 0, mat := exKey } =
+      .ok (prod.setAct 0 (bigAddSmallAssign false (prod.act 0) [[1, 0]])) ∧
+    ∀ l, l < 2 → l < 2 → phaseRow [[0, 1]] (bufRow prod l) =
+      sumPolys 2 ((List.range (min (1 * 1) (1 * 1))).map (fun j =>
+        Hal.negMul (limbOr0 2 ((mkCt 4 2 [[[1, 0]], [[1, 1]]]).cols.getD (j % 1 + 1) []) (j / 1)) (phaseRow [[0, 1]] (rowLimb exKey j l)))) :=
+  keyswitch_internal_phase_dsize1 false [[0, 1]] (zeroBuf 2 2 2) (mkCt 4 2 [[[1, 0]], [[1, 1]]])
+    { base2k := 4, dsize := 1, p := 0, mat := exKey } rfl rfl (by decide) (zeroBuf_WF 2 2 2) rfl rfl (by decide)
+    (entry_length exKey 2 rfl (by decide))
+
 /- FULL STATEMENT (not proved): `keyswitch_phase` for `dsize > 1`.
    For every key with `0 < dsize`, `dnum·dsize ≤ key.size`, every well-formed `res` (size = key.size)
    and input `a`, for all `l < key.size`:
